@@ -4,10 +4,11 @@ pub mod c03;
 pub mod c04;
 pub mod c05;
 pub mod c06;
+pub mod c07;
 
 use crate::engine::Env;
 
-pub const ALL: [&str; 6] = ["C01", "C02", "C03", "C04", "C05", "C06"];
+pub const ALL: [&str; 7] = ["C01", "C02", "C03", "C04", "C05", "C06", "C07"];
 
 /// run (or, with env.register_only, just register) every sub-check of a property
 pub fn run(id: &str, env: &mut Env) -> bool {
@@ -18,6 +19,7 @@ pub fn run(id: &str, env: &mut Env) -> bool {
         "C04" => c04::run(env),
         "C05" => c05::run(env),
         "C06" => c06::run(env),
+        "C07" => c07::run(env),
         _ => return false,
     }
     true
@@ -32,6 +34,7 @@ pub fn rule(id: &str) -> String {
         "C06" => "Pairs of instants (first boundary-dense over the range, second at a boundary-dense delta: 0, 1 ns, < one unit, k units +-1 ns, across 0001-01-01, far) with independent offsets: days..nanos_since on DateTime, hours..nanos_since on Time, days_since on Date compared with the exact i128 difference truncated toward zero, antisymmetry in both directions, duration_between = |difference| and symmetric; plus (instant, unit, u32 n): add_/sub_<unit>(n) followed by <unit>_since returns +-n. Non-trivial: |delta| below one unit, sub-unit remainders ordered opposite to the totals, pair straddling or entirely before 0001-01-01, n >= 2^31, start not aligned to the unit.",
         "C05" => "Cases (date, N, operation in add_months/sub_months/add_years/sub_years, receiver Date or DateTime with a time of day): dates rich in month ends 28..31 and Feb 29 of AD and BC leap years, the era neighbourhood and the range ends; N from 0,1,2,11,12,13,23,24,25, month+-1, 1200, 4800, the exact distance to the range end and to the era boundary +-k, 2^31-1, 2^31, 2^32-1, log-uniform; plus the complete product (month, day) x N<=50 x 4 operations over a window of years around the era. Oracle: month arithmetic on the astronomical month index with end-of-month clamp (second formulation by single-month stepping for N<=50); in range => exact date, same time of day, same offset; out of range => panic. DateTime receivers with a non-zero offset: only time of day and offset preservation are judged. Non-trivial: day >= 29, clamped, crosses the era, BC start, sub_months borrowing a year, N >= 2^31, target within a month of a range end.",
         "C02" => "Getters weekday()/day_of_year(): complete windows (quick) or all 2^32 days (thorough) against (d+1) mod 7 and d - jan1 + 1; the formatted fields w, ww, q, e..eeeeeeee, D (one format call with a 12-field pattern) on Dec 25..Jan 7 of every year in windows (quick) or of all 11.76M years (thorough), on 400-year cycles around the era and 1970 and at the range ends, against the ISO-8601 week (two formulations), quarter and weekday tables; set_day_of_year for years x N in 0..=367 (windows of years in quick, every year in thorough); plus seeded random days through the full per-field oracle on Date and DateTime. Non-trivial: BC day, day in the first/last 7 days of a year, N in {0,1,59,60,61,365,366,367}, BC or range-end year for the setter.",
+        "C07" => "Complete enumeration of all ordered pairs of days inside multi-year windows (a modern window with a leap year, the era boundary, BC leap years), row by row (fixed b, every a), for Date and - with three times of day on both sides - for DateTime; plus seeded random pairs over the whole range (half of them a few months apart with day of month and time of day within +-1 of each other) and random rows. Oracle per pair: antisymmetry of months_since and years_since (all pairs); when the earlier value's day of month is <= 28, the bracket model.add_months(b, n) <= a < model.add_months(b, n+1) on the instants and years == n / 12; along each row monotonicity in a. The model's month arithmetic is used, never the crate's. Non-trivial pair: same year with a day/time borrow, across a leap day, across the era, same date with different time of day. Row cases count their non-trivial pairs by construction.",
         _ => "",
     }
     .to_string()
